@@ -25,6 +25,7 @@ import (
 	"fmt"
 	"os"
 	"strings"
+	"sync"
 
 	"filippo.io/age"
 	"filippo.io/age/zverif/ax"
@@ -238,12 +239,20 @@ type msCase struct {
 }
 
 func stanzaSide(r *mon.Run) {
-	kinds := []string{"X", "U", "Ss", "Sd"} // Ss: second scrypt stanza, same passphrase; Sd: different passphrase
+	// Neighbour alphabet. Ss: second scrypt stanza, same passphrase; Sd:
+	// different passphrase; then the resource-degenerate neighbours: U0 = what
+	// keys.P("U0") emits (type grease-verif, no arguments, nil body), Ea = empty
+	// body with arguments only, La = arguments only with one long argument,
+	// B1 = body of one byte.
+	kinds := []string{"X", "U", "Ss", "Sd", "U0", "Ea", "La", "B1"}
 	maxN := 4
 	if r.Thorough() {
-		kinds = append(kinds, "E", "R", "U0")
+		kinds = append(kinds, "E", "R")
 		maxN = 5
 	}
+	emptyBody := map[string]bool{"U0": true, "Ea": true, "La": true}
+	var guardMu sync.Mutex
+	guard := map[string]int{} // empty-body-neighbour classes exercised through age.Decrypt
 	var cases []msCase
 	var gen func(n, pos int, cur []string)
 	gen = func(n, pos int, cur []string) {
@@ -311,6 +320,12 @@ func stanzaSide(r *mon.Run) {
 					st = append(st, refage.Stanza{Type: "unknown-1", Args: []string{"a", "bb"}, Body: mon.DetBytes(tag+"-u", 32)})
 				case "U0":
 					st = append(st, refage.Stanza{Type: "grease-verif"})
+				case "Ea":
+					st = append(st, refage.Stanza{Type: "empty-args", Args: []string{"a", "bb"}})
+				case "La":
+					st = append(st, refage.Stanza{Type: "long-arg", Args: []string{strings.Repeat("A", 3000)}})
+				case "B1":
+					st = append(st, refage.Stanza{Type: "one-byte", Args: []string{"x"}, Body: []byte{0x42}})
 				}
 			}
 			file := refage.BuildFile(fk, st, mon.DetBytes(tag+"-nonce", 16), pt)
@@ -353,8 +368,22 @@ func stanzaSide(r *mon.Run) {
 						}
 						continue
 					}
+					// which empty-body-neighbour class this header belongs to
+					nbClass, nbKind := "other", ""
+					if allEmpty, same := neighbourClass(c.kinds, emptyBody); allEmpty {
+						nbClass, nbKind = "only-empty-body-neighbours", same
+					}
+					if route == "Decrypt" && id.name == "A" && nbClass != "other" {
+						guardMu.Lock()
+						guard[fmt.Sprintf("any n=%d pos=%d", len(c.kinds), c.pos)]++
+						if nbKind != "" {
+							guard[fmt.Sprintf("%s n=%d pos=%d", nbKind, len(c.kinds), c.pos)]++
+						}
+						guardMu.Unlock()
+						r.Tab("stanzas_empty_body_neighbours_only", fmt.Sprintf("n=%d pos=%d", len(c.kinds), c.pos))
+					}
 					if o.Accepted {
-						pend[i] = append(pend[i], pendingViolation{fmt.Sprintf("multi-stanza-accepted/n=%d", len(c.kinds)), "multi-stanza-accepted:" + key,
+						pend[i] = append(pend[i], pendingViolation{fmt.Sprintf("multi-stanza-accepted/n=%d/%s", len(c.kinds), nbClass), "multi-stanza-accepted:" + key,
 							fmt.Sprintf("passphrase identity %s through %s returned a file key for the %d-stanza header %s (passphrase stanza at position %d is not alone)",
 								id.name, route, len(c.kinds), label, c.pos), replay})
 					} else {
@@ -366,6 +395,44 @@ func stanzaSide(r *mon.Run) {
 			}
 		})
 	})
+
+	// Vacuity guard: the "stands alone" rule must have been exercised through
+	// age.Decrypt with nothing but empty-body neighbours (and with each kind
+	// of empty-body neighbour on its own) at every position of the passphrase
+	// stanza, for every header length of the sweep up to 4.
+	for n := 2; n <= 4; n++ {
+		for pos := 0; pos < n; pos++ {
+			for _, k := range []string{"any", "U0", "Ea", "La"} {
+				if cell := fmt.Sprintf("%s n=%d pos=%d", k, n, pos); guard[cell] == 0 {
+					r.Inconclusive("vacuous: no header with only empty-body neighbours (%s) was decided through age.Decrypt", cell)
+				}
+			}
+		}
+	}
+	r.Set("empty_body_neighbour_cells_exercised", len(guard))
+}
+
+// neighbourClass reports whether every neighbour of the passphrase stanza S
+// has an empty body, and, if they are all of one kind, that kind.
+func neighbourClass(kinds []string, empty map[string]bool) (allEmpty bool, same string) {
+	allEmpty = len(kinds) > 1
+	for _, k := range kinds {
+		if k == "S" {
+			continue
+		}
+		if !empty[k] {
+			return false, ""
+		}
+		if same == "" {
+			same = k
+		} else if same != k {
+			same = "*"
+		}
+	}
+	if same == "*" {
+		same = ""
+	}
+	return allEmpty, same
 }
 
 func acceptedRight(o *outcome, route string, fk, pt []byte) bool {
